@@ -267,11 +267,13 @@ def u_load_patches(ctx, centers):
     ctx.check(f"{name}/post:every_entry_belongs_to_a_stored_id", k2 == ids.at(SNum(perm.pi(t2.t))))
 
 
-@unit(P, "Catalog.build_trees", fuc=["yaw.catalog.catalog:Catalog.build_trees"], cases=[dict(binned=False), dict(binned=True)],
-      trusted=["iter_unordered contract"])
-def u_cat_build_trees(ctx, binned):
+@unit(P, "Catalog.build_trees", fuc=["yaw.catalog.catalog:Catalog.build_trees"],
+      cases=[dict(binned=b, repeated=r) for b in (False, True) for r in (False, True)], trusted=["iter_unordered contract"])
+def u_cat_build_trees(ctx, binned, repeated=False):
     """one BinnedTrees.build task per patch with the same (binning, leafsize, force); the iterator is consumed
-    completely; the worker limit only reaches iter_unordered"""
+    completely; the worker limit only reaches iter_unordered.  repeated: the same holds for a second call with equal arguments
+    on the same object - the catalog object keeps no memory of what it built (the cache directory may have been rebuilt through
+    another handle in between; whether a patch is up to date is decided per patch from its cache, C07)"""
     C = mod("yaw.catalog.catalog")
     T = mod("yaw.catalog.trees")
     n = ctx.fresh_int("num_patches", lo=0, size=True)
@@ -312,7 +314,7 @@ def u_cat_build_trees(ctx, binned):
 
     def BinningStub(e, closed="right"):
         made.append((e, closed))
-        return ("BINNING", len(made))
+        return ("BINNING", 1)           # equal arguments give equal binnings
     name = "C05/Catalog.build_trees"
     with Patches() as pt:
         pt.set(C, "parallel", Par)
@@ -320,6 +322,12 @@ def u_cat_build_trees(ctx, binned):
         pt.set(C.Catalog, "values", lambda self: patches)
         pt.set(C.Catalog, "__len__", lambda self: n)
         ctx.canary()
+        if repeated:
+            expect_no_exception(ctx, call(C.Catalog.build_trees, cat, edges, closed="left", leafsize=leaf, force=ctx.fresh_bool("force_before"),
+                                          max_workers=mw), name)
+            state.clear()
+            state["consumed"] = 0
+            del made[:]
         res = expect_no_exception(ctx, call(C.Catalog.build_trees, cat, edges, closed="left", leafsize=leaf, force=force,
                                             max_workers=mw), name)
     ctx.check(f"{name}/post:task_is_BinnedTrees.build_over_all_patches", state.get("func") is not None and
@@ -363,6 +371,9 @@ def _real_runs(worker_counts=(1, 2, 4), orders=("natural", "reversed", "rotated"
         n = len(pid)
         zz = rng.uniform(0.1, 1.0, n)
         zz[::7] = rng.choice(np.linspace(0.1, 1.0, 4), size=len(zz[::7]))     # the edges Configuration.create(..., num_bins=3) generates
+        # the small patches at the end have no objects in the last bin: tasks that pair them with a populated patch must still
+        # report the populated patch's sum of weights (count_pairs keeps the value of the task that arrives last)
+        zz[(pid >= 5) & (zz >= 0.7)] = rng.uniform(0.1, 0.69, int(np.sum((pid >= 5) & (zz >= 0.7))))
         df = pd.DataFrame(dict(ra=rng.uniform(0, 6, n) + 8 * pid, dec=rng.uniform(-3, 3, n), z=zz,
                                w=10.0 ** rng.uniform(-3, 3, n), pid=pid))   # weights over 6 decades: sums are sensitive to their order
         os.environ["YAW_NUM_THREADS"] = "1"
@@ -422,7 +433,7 @@ def bounded(opts):
         diff = [k for k in ref if r.get(k) != ref[k]] + ([f"run failed: {r['failed']}"] if "failed" in r else [])
         if diff and len(viol) < 5:
             viol.append(dict(id="bounded:worker_count_and_arrival_order", case=label, differs_in=diff, reference=ref_label))
-    return dict(kind="bounded", bound="one catalog triple (8 patches, 510 objects with weights over 6 decades, one patch 6x larger), 3 redshift bins; "
+    return dict(kind="bounded", bound="one catalog triple (8 patches, 510 objects with weights over 6 decades, one patch 6x larger, three patches empty in the last bin), 3 redshift bins; "
                 "worker counts and forced arrival orders: " + ", ".join(lab for lab, _ in runs),
                 evaluations=len(runs) * len(ref), distinct_nontrivial=max(len(runs) - 1, 0), violations=viol,
                 samples=[dict(run=lab, ids=r.get("ids"), nrec=r.get("nrec")) for lab, r in runs[:2]], wall_s=round(time.time() - t0, 2),
@@ -444,6 +455,11 @@ def replay_witness(unit_name, case, ob):
 # same functions): together with load_patches above, iteration order does not depend on the completion order
 def _register_shared():
     from . import C12 as _C12
+    from . import C01 as _C01
+    # count_pairs keeps the sums of weights of a patch from whichever task of that patch arrives last: that is independent of the
+    # arrival order only because every task reports the same values for the same patch - the contract of process_patch_pair
+    unit(P, "process_patch_pair", fuc=["yaw.correlation.measurements:process_patch_pair", "yaw.binning:Binning.mids"],
+         cases=[dict(second=s, weighted=w) for s in ("binned", "unbinned") for w in (False, True)], trusted=["BinnedTrees.__iter__ (C07)"])(_C01.u_ppp)
     unit(P, "Catalog.accessors", fuc=["yaw.catalog.catalog:Catalog.__iter__", "yaw.catalog.catalog:Catalog.get_centers", "yaw.catalog.catalog:Catalog.get_radii",
                                      "yaw.catalog.catalog:Catalog.get_num_records", "yaw.catalog.catalog:Catalog.get_sum_weights"], kind="bounded")(_C12.u_accessors)
 
